@@ -7,17 +7,57 @@ PROFILE = {"p_ignore": 0.0, "p_valid_inputs": 0.9, "p_float": 0.6, "inputs": ["p
            "ops": ["add", "sub", "mul", "truediv", "floordiv", "mod", "divmod", "lt", "le", "eq", "ne", "gt", "ge", "pow", "lshift", "rshift"],
            "weights": dict(input=0.12, const=0.14, bin=0.55, un=0.06, meth=0.08, ite=0.03, guarded=0.0, ignore=0.0, list=0.02)}
 VALUE_ERRORS = ("AssertionError", "ValueError", "ZeroDivisionError")
+import progs
+
+# systematic part: every operator x every operand-kind pair with a fixed-point value on at least one side, both orders,
+# with fractional, negative and constant (int / float, both signs) operands -- the random programs cover compositions
+MATRIX_OPS = ["add", "sub", "mul", "truediv", "floordiv", "mod", "divmod", "lt", "le", "eq", "ne", "gt", "ge"]
+KINDS = ["fxp", "fxpfrac", "lc", "bool", "int", "float"]
 
 
-def same(tv, iv, R):
+def matrix_cases(rnd, reps):
+    out = []
+    for op in MATRIX_OPS:
+        for ka in KINDS:
+            for kb in KINDS:
+                if not ({ka, kb} & {"fxp", "fxpfrac"}): continue
+                for _ in range(reps):
+                    res = rnd.choice([1, 2, 3, 4, 8]); n = rnd.choice([12, 16])
+                    prog = []; nreg = [0]
+                    def new():
+                        nreg[0] += 1
+                        return nreg[0] - 1
+                    def operand(k, slot):
+                        if k == "fxp":
+                            d = new(); prog.append(["input", d, "privfxp", slot]); return d
+                        if k == "fxpfrac":       # an input times a dyadic constant: a fractional (possibly negative) fixed-point value
+                            a = new(); prog.append(["input", a, "privfxp", slot])
+                            c = new(); prog.append(["const", c, ["float", rnd.choice([1, 3, -1, -3, 5]), rnd.choice([1, 2])]])
+                            d = new(); prog.append(["bin", d, "mul", a, c]); return d
+                        if k == "lc":
+                            d = new(); prog.append(["input", d, "priv", slot]); return d
+                        if k == "bool":
+                            d = new(); prog.append(["input", d, "privbool", 2 + slot]); return d
+                        if k == "int":
+                            d = new(); prog.append(["const", d, ["int", rnd.choice([1, 2, 3, 5, -1, -2, -3, 0, 4])]]); return d
+                        d = new(); prog.append(["const", d, ["float", rnd.choice([1, 3, 5, -1, -3, -5, 8, 0]), rnd.choice([0, 1, 2])]]); return d
+                    a = operand(ka, 0); b = operand(kb, 1)
+                    prog.append(["bin", new(), op, a, b])
+                    ins = [rnd.choice([0, 1, 2, 3, 5, 6, 7, -1, -2, -3, -6]), rnd.choice([1, 2, 3, 4, 6, -1, -2, -3, 0]), rnd.choice([0, 1]), rnd.choice([0, 1])]
+                    out.append(dict(cfg=dict(p=rnd.choice([progs.BN, progs.BLS]), n=n, res=res, ign=0), prog=prog, ins=ins))
+    return out
+
+
+def same(tv, iv, R, p=None):
     if isinstance(iv, dict):
         if "fx" in iv:
-            if isinstance(tv, twin.Fx): return tv.rep == iv["fx"]
+            # LinCombFxp.__pow__ reduces its value modulo the field prime: beyond the field size values can only agree modulo p
+            if isinstance(tv, twin.Fx): return tv.rep == iv["fx"] or (p is not None and abs(tv.rep) >= p and (tv.rep - iv["fx"]) % p == 0)
             return False
         if "lc" in iv: return isinstance(tv, int) and not isinstance(tv, twin.Fx) and int(tv) == iv["lc"]
         if "b" in iv: return isinstance(tv, int) and int(tv) == iv["b"]
         return None
-    if isinstance(iv, list): return isinstance(tv, (list, tuple)) and len(tv) == len(iv) and all(same(a, b, R) is not False for a, b in zip(tv, iv))
+    if isinstance(iv, list): return isinstance(tv, (list, tuple)) and len(tv) == len(iv) and all(same(a, b, R, p) is not False for a, b in zip(tv, iv))
     if iv is None: return tv is None
     if isinstance(iv, int): return isinstance(tv, int) and int(tv) == iv
     return None
@@ -40,12 +80,18 @@ def oracle(case, rec, group):
         if s and s[0] == "un": return [regv.get(s[3])]
         if s and s[0] == "meth": return [regv.get(s[4])] + [regv.get(q) for q in s[5]]
         return []
+    P = case["cfg"]["p"]
+    def beyond(v):
+        if isinstance(v, twin.Fx): return abs(v.rep) >= P
+        if isinstance(v, (list, tuple)): return any(beyond(x) for x in v)
+        return isinstance(v, int) and abs(v) >= P
     for pc, iv in rec["vals"]:
         s = case["prog"][pc - 1] if 0 < pc <= len(case["prog"]) else None
         ops = involved(s)
+        if any(beyond(o) for o in ops): break       # an operand at or beyond the field size: integers and field elements part ways from here on
         fxp_involved = any(isinstance(o, (twin.Fx, float)) for o in ops)
         if pc in t and fxp_involved:
-            ok = same(t[pc], iv, tw.R)
+            ok = same(t[pc], iv, tw.R, case["cfg"]["p"])
             if ok is False:
                 kinds = "/".join(kind_of(o) for o in ops)
                 # secret int compared with / combined into a fixed-point value in the integer class's own method
@@ -60,8 +106,16 @@ def oracle(case, rec, group):
 
 
 def run(tier, seed):
-    return tracecheck.run(PID, tier, seed, PROFILE, oracle, n_quick=450, n_thorough=8000, require_props=False, mask=1 | 4 | 8, mutation_oracle=True,
-                          level="translation_validation")
+    import random
+    pending = matrix_cases(random.Random(seed * 7919 + 14), 2 if tier == "quick" else 12)
+    gen = [None]
+    def casegen(rnd):
+        if pending: return pending.pop()
+        if gen[0] is None: gen[0] = progs.Gen(rnd, PROFILE)
+        return gen[0].case()
+    nm = len(pending)
+    return tracecheck.run(PID, tier, seed, PROFILE, oracle, n_quick=nm + 350, n_thorough=nm + 6000, require_props=False, mask=1 | 4 | 8, mutation_oracle=True,
+                          level="translation_validation", casegen=casegen)
 
 
 def replay(payload):
